@@ -98,14 +98,15 @@ def updFirst (s : String) (f : Node → Node) : List Node → List Node
   | [] => []
   | c :: cs => if c.name == s then f c :: cs else c :: updFirst s f cs
 
+/-- position of a new child in map order: before the first child with a greater name -/
+def insertSorted (name : String) : List Node → List Node
+  | [] => [Node.fresh name]
+  | c :: cs => if name < c.name then Node.fresh name :: c :: cs else c :: insertSorted name cs
+
 /-- `m_children.insert({name, Node(name)})`: no effect when the name is present, otherwise the new node
 goes to its place in map order -/
-def insertChild (name : String) : List Node → List Node
-  | [] => [Node.fresh name]
-  | c :: cs =>
-    if c.name == name then c :: cs
-    else if name < c.name then Node.fresh name :: c :: cs
-    else c :: insertChild name cs
+def insertChild (name : String) (l : List Node) : List Node :=
+  if (findChild name l).isSome then l else insertSorted name l
 
 /-! ### notify -/
 
@@ -133,8 +134,8 @@ def notify {α : Type} (rm : ρ → String → Bool) (a : α) : List (Level ρ) 
       | .str s =>
         match findChild s n.children with
         | some c =>
-          let r := notify rm a rest nxt c
-          ⟨n.withChildren (updFirst s (fun _ => r.node) n.children), r.log, r.count⟩
+          let r := notify rm a rest nxt c       -- `it->second.notify(...)` works on the child in place
+          ⟨n.withChildren (updFirst s (fun (d : Node) => (notify rm a rest nxt d).node) n.children), r.log, r.count⟩
         | none => ⟨n, [], 0⟩
     else ⟨n, [], 0⟩
 
